@@ -51,9 +51,10 @@ def strategy(tier):
     @st.composite
     def cases(draw):
         if draw(st.integers(0, 4)) == 0:
-            # implicit mode (direct solver): 1-2 explicit blocks + the implicit block
+            # implicit mode: 1-2 explicit blocks + the implicit block
             imp = draw(implicit_case(tier))
-            imp["solver"] = "direct"
+            if not draw(st.booleans()):
+                imp["solver"] = "direct"  # otherwise as drawn: direct, direct + eigenvalue_atol, KPM, KPM + auxiliary vectors
             p = {"implicit": imp, "n_params": imp["n_params"], "blocks": list(imp["sizes"]) + [imp["n"] - sum(imp["sizes"])], "K": imp["K"]}
         else:
             p = draw(st.one_of(herm, herm, nh))
@@ -106,7 +107,7 @@ def _norm(v):
     return ("num", np.array(v))
 
 
-def _same(a, b):
+def _same(a, b, tol=1e-11):
     if a[0] != b[0]:
         # a vanishing element may be the sentinel in one history and an explicit zero in another
         arr = a[1] if a[0] in ("num", "sym") else b[1]
@@ -125,7 +126,7 @@ def _same(a, b):
         return False
     if not (np.all(np.isfinite(x)) and np.all(np.isfinite(y))):
         return False
-    return float(np.abs(x - y).max() if x.size else 0.0) <= 1e-11 * max(1.0, float(np.abs(y).max() if y.size else 0.0))
+    return float(np.abs(x - y).max() if x.size else 0.0) <= tol * max(1.0, float(np.abs(y).max() if y.size else 0.0))
 
 
 def _snapshot_inputs(ham, kwargs):
@@ -186,18 +187,36 @@ def check_case(case, enforce_all=False):
         kwargs = {k_: v for k_, v in kwargs.items() if k_ != "subspace_indices"}
         out.labels.append("input=blockseries-data")
     snap = _snapshot_inputs(ham, kwargs)
+    # Values are compared to 1e-11 (relative) - except with the KPM solver, whose results are only defined up to the
+    # requested accuracy and are not even reproducible between two identical runs (the spectral bounds come from ARPACK
+    # with a random start vector; observed run-to-run differences ~1e-11 at atol 1e-6): there the comparison uses the
+    # same accuracy-based tolerance as C06, and a case with a convergence warning is not judged at all.
+    is_kpm = "implicit" in case["problem"] and str(case["problem"]["implicit"].get("solver", "")).startswith("kpm")
+    vtol = 1e-11
+    kpm_state = {"warned": False}
+    if is_kpm:
+        vtol = 1e3 * (case["problem"]["implicit"].get("kpm_atol") or 1e-5) * (1 + K) ** 2
+        out.labels.append("solver=kpm")
+
+    def _note(wlist):
+        if any(issubclass(w.category, RuntimeWarning) and "KPM" in str(w.message) for w in wlist):
+            kpm_state["warned"] = True
 
     def compute(h, kw):
-        with warnings.catch_warnings():
-            warnings.simplefilter("ignore")
+        with warnings.catch_warnings(record=True) as wl:
+            warnings.simplefilter("always")
             if data_form:
                 h = BlockSeries(data=h, shape=(nb, nb), n_infinite=k, name="H_user")
-            return dict(zip(SERIES, block_diagonalize(h, **kw)))
+            res = dict(zip(SERIES, block_diagonalize(h, **kw)))
+        _note(wl)
+        return res
 
     def element(series, idx):
-        with warnings.catch_warnings():
-            warnings.simplefilter("ignore")
-            return series[idx]
+        with warnings.catch_warnings(record=True) as wl:
+            warnings.simplefilter("always")
+            v = series[idx]
+        _note(wl)
+        return v
 
     # reference table: separate computation on copies of the inputs, ascending requests
     try:
@@ -229,12 +248,12 @@ def check_case(case, enforce_all=False):
             n = tuple(n)
             v = element(comps[c][name], (i, j) + n)
             got = _norm(v)
-            if not _same(got, lookup(name, i, j, n)):
+            if not _same(got, lookup(name, i, j, n), vtol):
                 return out.fail("history-dependent", f"{name}[{i},{j},{list(n)}] on computation {c} differs from the reference table after {len(history)} operations")
             if kind == "get_fresh":
                 out.labels.append("op:get_fresh")
                 fresh = compute(*copy.deepcopy((ham, kwargs)))
-                if not _same(_norm(element(fresh[name], (i, j) + n)), got):
+                if not _same(_norm(element(fresh[name], (i, j) + n)), got, vtol):
                     return out.fail("fresh-differs", f"{name}[{i},{j},{list(n)}] differs from a fresh single-request computation")
             from scipy.sparse.linalg import LinearOperator
 
@@ -270,7 +289,7 @@ def check_case(case, enforce_all=False):
 
             for got, exp in cells:
                 g = ("zero", None) if got is None else _norm(got)
-                if not _same(g, exp):
+                if not _same(g, exp, vtol):
                     return out.fail("history-dependent", f"slice {name}{list(map(str, item))} on computation {c} differs from the reference table")
         elif kind == "starved_get":
             # a request that may die of resource exhaustion (RecursionError) part-way through the nested evaluation;
@@ -305,9 +324,9 @@ def check_case(case, enforce_all=False):
                 # ... but the same request at the normal limit must now succeed with the undisturbed value (a genuine
                 # exception would surface here, outside the try)
                 v = element(comps[c][name], (i, j) + n)
-                if not _same(_norm(v), lookup(name, i, j, n)):
+                if not _same(_norm(v), lookup(name, i, j, n), vtol):
                     return out.fail("history-dependent", f"{name}[{i},{j},{list(n)}] requested again after dying of a low recursion limit differs from the reference table")
-            elif not _same(_norm(v), lookup(name, i, j, n)):
+            elif not _same(_norm(v), lookup(name, i, j, n), vtol):
                 return out.fail("history-dependent", f"{name}[{i},{j},{list(n)}] (under a low recursion limit) differs from the reference table")
         elif kind == "user_product":
             # the caller forms its own Cauchy product of two returned series (the documented unitarity check U^dagger U,
@@ -341,6 +360,11 @@ def check_case(case, enforce_all=False):
             do(op)
         except Exception as exc:  # noqa: BLE001
             out.fail("exception", f"operation {step} {op[:6]} raised {type(exc).__name__}: {str(exc)[:200]}")
+        if kpm_state["warned"]:
+            # the expansion did not converge within max_moments: the library said so, nothing is promised about the values
+            out.failures.clear()
+            out.labels.append("kpm-convergence-warning")
+            return out
         if out.failures:
             return out
         history.append(op)
